@@ -131,6 +131,7 @@ func (em *emitter) emitNodes(nodes []ast.Node) {
 				em.emitNodes(node.Body)
 				em.rangeLabels = em.rangeLabels[:len(em.rangeLabels)-1]
 				em.fb.setLabelAddr(forPost)
+				em.renewLoopVariables(node.Init)
 				if node.Post != nil {
 					em.emitNodes([]ast.Node{node.Post})
 				}
@@ -150,6 +151,7 @@ func (em *emitter) emitNodes(nodes []ast.Node) {
 				em.rangeLabels = em.rangeLabels[:len(em.rangeLabels)-1]
 				if node.Post != nil {
 					em.fb.setLabelAddr(forPost)
+					em.renewLoopVariables(node.Init)
 					em.emitNodes([]ast.Node{node.Post})
 				}
 				em.fb.emitGoto(forLabel)
@@ -1206,10 +1208,13 @@ func (em *emitter) emitForRange(node *ast.ForRange) {
 	em.fb.emitGoto(endRange)
 	em.fb.enterScope()
 
+	// Each iteration has its own copy of the iteration variables.
 	if indirectIndex != 0 {
+		em.fb.emitNew(indexType, -indirectIndex)
 		em.changeRegister(false, index, indirectIndex, indexType, indexType)
 	}
 	if indirectElem != 0 {
+		em.fb.emitNew(elemType, -indirectElem)
 		em.changeRegister(false, elem, indirectElem, elemType, elemType)
 	}
 
@@ -1241,6 +1246,38 @@ func (em *emitter) emitForRange(node *ast.ForRange) {
 		em.fb.emitGoto(exit)
 	}
 
+}
+
+// renewLoopVariables is called before emitting the post statement of a 'for'
+// statement whose init statement is init. Each iteration has its own copy of
+// the variables declared by the init statement: prior to executing the post
+// statement, a variable that is referred by a function literal (it is stored
+// in an indirect register) is replaced by a new variable with the same value.
+func (em *emitter) renewLoopVariables(init ast.Node) {
+	assignment, ok := init.(*ast.Assignment)
+	if !ok || assignment.Type != ast.AssignmentDeclaration {
+		return
+	}
+	for _, v := range assignment.Lhs {
+		ident, ok := v.(*ast.Identifier)
+		if !ok || isBlankIdentifier(ident) || !em.varStore.mustBeDeclaredAsIndirect(ident) {
+			continue
+		}
+		if !em.fb.declaredInFunc(ident.Name) {
+			continue
+		}
+		reg := em.fb.scopeLookup(ident.Name)
+		if reg >= 0 {
+			continue
+		}
+		typ := em.typ(ident)
+		em.fb.enterStack()
+		tmp := em.fb.newRegister(typ.Kind())
+		em.changeRegister(false, reg, tmp, typ, typ)
+		em.fb.emitNew(typ, -reg)
+		em.changeRegister(false, tmp, reg, typ, typ)
+		em.fb.exitStack()
+	}
 }
 
 // branchTarget represents a statement, enclosing the statement that is going
